@@ -52,7 +52,7 @@ def lookup_ec_curve_by_params(p: int, a: int, b: int,
 
     try:
         return _curve_param_map[p, a % p, b % p, point, n]
-    except (KeyError, ValueError):
+    except (KeyError, TypeError, ValueError, ZeroDivisionError):
         raise ValueError('Unknown elliptic curve parameters') from None
 
 
